@@ -417,6 +417,14 @@ class BaseEncoder:
         return self.writer.pickledata
 
 
+def _quote_doc(doc):
+    """Return a triple-quoted string literal whose value is ``doc``"""
+    s = doc.replace("\\", "\\\\").replace('"""', '\\"\\"\\"')
+    if s.endswith('"'):
+        s = s[:-1] + '\\"'
+    return '"""' + s + '"""'
+
+
 class ModelEncoder(BaseEncoder):
 
     def __init__(self, writer,
@@ -438,7 +446,7 @@ class ModelEncoder(BaseEncoder):
     def encode(self):
         lines = []
         if self.model.doc is not None:
-            lines.append("\"\"\"" + self.model.doc + "\"\"\"")
+            lines.append(_quote_doc(self.model.doc))
 
         lines.append("from modelx.serialize.jsonvalues import *")
         lines.append("_name = \"%s\"" % self.model.name)
@@ -496,7 +504,7 @@ class SpaceEncoder(BaseEncoder):
 
         lines = []
         if self.space.doc is not None:
-            lines.append("\"\"\"" + self.space.doc + "\"\"\"")
+            lines.append(_quote_doc(self.space.doc))
 
         lines.append("from modelx.serialize.jsonvalues import *")
 
@@ -640,7 +648,7 @@ class CellsEncoder(BaseEncoder):
             if self.target.formula.source[:6] == "lambda":
                 line = self.target.name + " = " + self.target.formula.source
                 if self.target.doc:
-                    line += "\n" + ("\"\"\"%s\"\"\"" % self.target.doc)
+                    line += "\n" + _quote_doc(self.target.doc)
                 lines.append(line)
             else:
                 lines.append(self.target.formula.source)
